@@ -1,7 +1,7 @@
 (* C01 — Two endpoints built on the library interoperate, even across transport loss.
    Statements only.  Nothing else may be added to this file. *)
 From MQ Require Import Base.Prelude Alloc.Alloc Alloc.AllocProofs Framing.Framing Framing.FramingProofs Conn.Types Conn.ConnRecord Conn.Step
-                       Corr.ConnTrace Conn.Scope Conn.Session Conn.IdsQuota Conn.Own Conn.OwnFrame Conn.OwnStep Conn.Run Conn.PairQos Conn.PairQos0 Conn.PairQos5 Conn.PairSeq Conn.PairSeq5 Conn.PairConc Conn.PairBi Conn.PairConc5 Conn.PairBi5 Conn.PairHandshake5 Conn.PairHandshake311 Conn.PairManual Conn.PairManual5 Conn.PairManualSeq Conn.PairManualSeq5 Conn.SessInv Conn.PairLoss Conn.PairLossAcc Conn.PairLossS Conn.PairHandshakeP.
+                       Corr.ConnTrace Conn.Scope Conn.Session Conn.IdsQuota Conn.Own Conn.OwnFrame Conn.OwnStep Conn.Run Conn.PairQos Conn.PairQos0 Conn.PairQos5 Conn.PairSeq Conn.PairSeq5 Conn.PairConc Conn.PairBi Conn.PairConc5 Conn.PairBi5 Conn.PairHandshake5 Conn.PairHandshake311 Conn.PairManual Conn.PairManual5 Conn.PairManualSeq Conn.PairManualSeq5 Conn.PairHandshakeSeq Conn.SessInv Conn.PairLoss Conn.PairLossAcc Conn.PairLossS Conn.PairHandshakeP.
 
 (* what the pair property rests on, each proved for ALL states of one endpoint:
    (i) delivery in any fragmentation is the same byte stream (C09) *)
@@ -367,6 +367,27 @@ Theorem C01_pair_sequence_exactly_once_manual_v5 : forall gs gr ps cs cr,
   end.
 Proof. exact run_seq5_m_ok. Qed.
 Print Assumptions C01_pair_sequence_exactly_once_manual_v5.
+
+(* ... END TO END with manual responses (Conn/PairHandshakeSeq.v): two freshly constructed v5.0 objects (automatic responses are
+   off by default), any handshake of the shape above, then any sequence of messages with the applications acknowledging *)
+Theorem C01_fresh_v5_manual_sequence : forall gA gB cn ca ps,
+  1 <= g_idmax gA -> 1 <= g_idmax gB -> role_client_ok gA = true -> role_server_ok gB = true ->
+  k_type cn = T_CONNECT -> k_ver cn = V50 -> k_flag cn = true -> k_tam cn = None -> k_size cn <= MQTT_PACKET_SIZE_NO_LIMIT ->
+  k_type ca = T_CONNACK -> k_ver ca = V50 -> k_rc ca = 0 -> k_flag ca = false -> k_tam ca = None -> k_rm ca <> Some 0 -> k_mps ca <> Some 0 ->
+  k_size ca <= limit_after (k_mps cn) MQTT_PACKET_SIZE_NO_LIMIT ->
+  2 + g_idw gA <= limit_after (k_mps ca) MQTT_PACKET_SIZE_NO_LIMIT -> 2 + g_idw gB <= limit_after (k_mps cn) MQTT_PACKET_SIZE_NO_LIMIT ->
+  Forall (fun p => v5_pub p 1 \/ v5_pub p 2) ps ->
+  exists A1 e1 B1 e2 B2 e3 A2 e4,
+    step gA (conn_new gA V50) (OSend cn) = Ok (A1, e1, []) /\ deliver gB (conn_new gB V50) cn = Ok (B1, e2) /\
+    step gB B1 (OSend ca) = Ok (B2, e3, []) /\ deliver gA A1 ca = Ok (A2, e4) /\
+    errors e1 = [] /\ errors e2 = [] /\ errors e3 = [] /\ errors e4 = [] /\
+    match run_seq5_m gA gB A2 B2 ps with
+    | Done A' B' d => d = ps /\ vacancy A' = c_send_max A' /\ c_publish_recv B' = []
+    | AppPre => True
+    | Fail => False
+    end.
+Proof. exact fresh_v5_manual_sequence. Qed.
+Print Assumptions C01_fresh_v5_manual_sequence.
 
 (* the same for v5.0 (Conn/PairManual5.v), with both Receive Maximum accounts: the receiver's slot stays taken from the
    PUBLISH until ITS APPLICATION sends PUBACK (QoS 1) or PUBCOMP (QoS 2) and is then free again; the sender's count is back
